@@ -1,5 +1,5 @@
 import NoteSeqVerif.Common.Wire
-import NoteSeqVerif.Model.C08Inst
+import NoteSeqVerif.Model.C08Wrap
 /-! line-protocol driver for C08 (compiled; no Mathlib).
 
 request  = `<family> <config…> <op> <args…>`   (lists travel as `<n> item*n`)
@@ -34,22 +34,13 @@ inductive Kind where
   | ohi
   | lb (c : LookbackCfg)
 
-structure Enc (ε : Type) where
-  inputSize : Int
-  numClasses : Int
-  defaultLabel : Except String Int
-  toInput : List ε → Int → Except String (List Int)
-  toLabel : List ε → Int → Except String Int
-  cite : Int → List ε → Except String ε
-  numSteps : List Int → Except String Int
+/-- the three generic sequence encoders are the model's `SeqEnc` instances -/
+abbrev Enc (ε : Type) := SeqEnc ε Int Int Int
 
 def mkEnc {ε} [DecidableEq ε] (oh : OneHot ε) : Kind → Enc ε
-  | .oh => ⟨ohInputSize oh, ohNumClasses oh, ohDefaultLabel oh, ohEventsToInput oh, ohEventsToLabel oh,
-            ohClassIndexToEvent oh, ohLabelsToNumSteps oh⟩
-  | .ohi => ⟨ohiInputSize oh, ohNumClasses oh, ohDefaultLabel oh, ohiEventsToInput oh, ohEventsToLabel oh,
-             ohClassIndexToEvent oh, ohLabelsToNumSteps oh⟩
-  | .lb c => ⟨lbInputSize oh c, lbNumClasses oh c, lbDefaultLabel oh, lbEventsToInput oh c, lbEventsToLabel oh c,
-              lbClassIndexToEvent oh c, lbLabelsToNumSteps oh c⟩
+  | .oh => ohEnc oh
+  | .ohi => ohiEnc oh
+  | .lb c => lbEnc oh c
 
 def pKind : P Kind := do
   let t ← P.next
@@ -92,12 +83,12 @@ def ops {ε} (E : Enc ε) (pEv : P ε) (showEv : ε → String) : P String := do
     pure (ex showEv (E.cite ci evs))
   else if op = "encode" then do
     let evs ← P.list pEv
-    pure (showEncode toString (encodeG E.toInput E.toLabel evs))
+    pure (showEncode toString (E.encode evs))
   else if op = "gen" then do
     let primer ← P.list pEv
     let labels ← P.list P.int
     let g := genLoop E.cite labels primer
-    pure (ex (fun l => showList showEv l) g ++ " | " ++ ex toString (E.numSteps labels))
+    pure (ex (fun l => showList showEv l) g ++ " | " ++ ex toString (E.labelsToNumSteps labels))
   else failure
 
 def pPerfEv : P (Nat × Int) := do
@@ -131,22 +122,6 @@ def withEnc (k : ∀ {ε : Type}, Enc ε → P ε → (ε → String) → P Stri
   else failure
 
 def pGeneric : P String := withEnc (fun E pEv showEv => ops E pEv showEv)
-
-/-- conditional wrapper: control encoder, then target encoder, then the two sequences -/
-def pCond : P String :=
-  withEnc (fun C pC _ =>
-    withEnc (fun T pT _ => do
-      let op ← P.next
-      let ctrl ← P.list pC
-      let tgt ← P.list pT
-      if op = "encode" then
-        pure (showEncode toString (condEncode C.toInput T.toInput T.toLabel ctrl tgt))
-      else if op = "input" then do
-        let p ← P.int
-        pure (ex showVec (condEventsToInput C.toInput T.toInput ctrl tgt p))
-      else if op = "sizes" then
-        pure s!"{C.inputSize + T.inputSize} {T.numClasses} {ex toString T.defaultLabel}"
-      else failure))
 
 def keyTriple (c : KeyCfg) (evs : List Int) (p : Int) : String :=
   let lab := keyEventsToLabel c evs p
@@ -270,6 +245,127 @@ def pMod : P String := do
           ex toString (ohLabelsToNumSteps oh labels))
   else failure
 
+/-! ### components of the wrapper / the base-class helpers, uniformly over every encoder class
+
+a component is `g <onehot> <kind>` | `key mn mx <dists> bits` | `np bins ms md lo hi` | `pr n` | `mod bins ms`;
+its input cells and `num_classes` are printed as strings, so control and target may be of any two classes -/
+structure Codec (ε κ : Type) where
+  pEv : P ε
+  showEv : ε → String
+  pLab : P κ
+  showLab : κ → String
+
+abbrev Comp (ε κ : Type) := SeqEnc ε String κ String
+
+def intComp {ε} (E : SeqEnc ε Int Int Int) : Comp ε Int := (E.mapCells toString).mapNC toString
+
+def intCodec {ε} (pEv : P ε) (showEv : ε → String) : Codec ε Int := ⟨pEv, showEv, P.int, toString⟩
+
+def withComp (k : ∀ {ε κ : Type}, Comp ε κ → Codec ε κ → P String) : P String := do
+  let fam ← P.next
+  if fam = "g" then withEnc (fun E pEv showEv => k (intComp E) (intCodec pEv showEv))
+  else if fam = "key" then do
+    let mn ← P.int
+    let mx ← P.int
+    let ds ← P.list P.int
+    let b ← P.int
+    k (intComp (keyEnc ⟨mn, mx, ds, b⟩)) (intCodec P.int toString)
+  else if fam = "np" then do
+    let bins ← P.int
+    let ms ← P.nat
+    let md ← P.nat
+    let lo ← P.int
+    let hi ← P.int
+    match npInit ⟨bins, ms, md, lo, hi⟩ with
+    | .error _ => failure
+    | .ok E => k (((npEnc E).mapCells toString).mapNC showInts) ⟨pNPEvent, showNPEvent, P.rep P.int 6, showLabel6⟩
+  else if fam = "pr" then do
+    let n ← P.nat
+    k (intComp (prEnc n)) (intCodec (P.list P.nat) showNats)
+  else if fam = "mod" then do
+    let bins ← P.int
+    let ms ← P.int
+    k (((modEnc ⟨bins, ms⟩).mapCells showCell).mapNC toString) (intCodec pPerfEv showPerfEv)
+  else failure
+
+def showVecS (v : List String) : String := if v.isEmpty then "[]" else ",".intercalate v
+
+def showEncodeS {κ} (f : κ → String) : Except String (List (List String) × List κ) → String
+  | .error e => "!" ++ e
+  | .ok (ins, labs) =>
+    " ".intercalate (toString ins.length :: toString labs.length ::
+      (ins.zip labs).map (fun (a, b) => showVecS a ++ "|" ++ f b))
+
+def showBatch (b : List (List (List String))) : String := showList (fun s => showList showVecS s) b
+
+/-- base-class helpers of one encoder: `u <component> <op> …` -/
+def uOps {ε κ} (E : Comp ε κ) (cd : Codec ε κ) : P String := do
+  let op ← P.next
+  if op = "sizes" then pure s!"{E.inputSize} {E.numClasses} {ex cd.showLab E.defaultLabel}"
+  else if op = "batch" then do
+    let full ← P.bool
+    let seqs ← P.list (P.list cd.pEv)
+    pure (ex showBatch (E.inputsBatch seqs full))
+  else if op = "xgen" then do
+    let primer ← P.list cd.pEv
+    let labels ← P.list cd.pLab
+    pure (ex (showList cd.showEv) (E.extendLoop labels primer) ++ " | " ++ ex toString (E.labelsToNumSteps labels))
+  else if op = "steps" then do
+    let labels ← P.list cd.pLab
+    pure (ex toString (E.labelsToNumSteps labels))
+  else if op = "encode" then do
+    let evs ← P.list cd.pEv
+    pure (showEncodeS cd.showLab (E.encode evs))
+  else failure
+
+/-- every public method of the conditional wrapper: `cond <control component> <target component> <op> …` -/
+def pCond : P String :=
+  withComp (fun C cc =>
+    withComp (fun T ct => do
+      let W : Cond _ _ _ _ _ _ _ := ⟨C, T⟩
+      let labDec := fun (tgt : List _) (p : Int) =>
+        let lab := W.toLabel tgt p
+        let dec := match lab with
+          | .ok l => ex ct.showEv (W.cite l (pySliceTo tgt p))
+          | .error _ => "-"
+        ex ct.showLab lab ++ "|" ++ dec
+      let op ← P.next
+      if op = "sizes" then
+        pure s!"{W.inputSize} {W.numClasses} {ex ct.showLab W.defaultLabel}"
+      else if op = "encode" then do
+        let ctrl ← P.list cc.pEv
+        let tgt ← P.list ct.pEv
+        pure (showEncodeS ct.showLab (W.encode ctrl tgt))
+      else if op = "input" then do
+        let ctrl ← P.list cc.pEv
+        let tgt ← P.list ct.pEv
+        let p ← P.int
+        pure (ex showVecS (W.toInput ctrl tgt p))
+      else if op = "all" then do
+        let tgt ← P.list ct.pEv
+        pure (" ".intercalate ((List.range tgt.length).map fun (q : Nat) => labDec tgt (q : Int)))
+      else if op = "label" then do
+        let tgt ← P.list ct.pEv
+        let p ← P.int
+        pure (labDec tgt p)
+      else if op = "cite" then do
+        let tgt ← P.list ct.pEv
+        let ci ← ct.pLab
+        pure (ex ct.showEv (W.cite ci tgt))
+      else if op = "steps" then do
+        let labels ← P.list ct.pLab
+        pure (ex toString (W.labelsToNumSteps labels))
+      else if op = "gen" then do
+        let primer ← P.list ct.pEv
+        let labels ← P.list ct.pLab
+        pure (ex (showList ct.showEv) (W.extendLoop labels primer) ++ " | " ++ ex toString (W.labelsToNumSteps labels))
+      else if op = "batch" then do
+        let full ← P.bool
+        let ctrls ← P.list (P.list cc.pEv)
+        let tgts ← P.list (P.list ct.pEv)
+        pure (ex showBatch (W.inputsBatch ctrls tgts full))
+      else failure))
+
 def top : P String := do
   let fam ← P.next
   if fam = "g" then pGeneric
@@ -278,6 +374,7 @@ def top : P String := do
   else if fam = "np" then pNP
   else if fam = "pr" then pPR
   else if fam = "mod" then pMod
+  else if fam = "u" then withComp (fun E cd => uOps E cd)
   else failure
 
 def step (line : String) : String :=
